@@ -11,8 +11,8 @@ CONSTANTS Big,   \* TRUE: larger universe (thorough)
           Dev    \* self-test deviation: "none", or "asym" (a string is smaller than a
                  \* number whichever side it is on - must violate AntiSym)
 
-SeqOf(S) == LET T == CHOOSE f \in [1..Cardinality(S) -> S] : \A x \in S : \E i \in 1..Cardinality(S) : f[i] = x
-            IN T
+SX == INSTANCE SequencesExt
+SeqOf(S) == SX!SetToSeq(S)
 
 \* numbers: signs x exponents x digit sequences, zero, both infinities
 Digs == IF Big THEN { <<1>>, <<1, 2>>, <<1, 0, 5>>, <<9>>, <<3, 2, 7, 6, 8>>,
